@@ -10,6 +10,7 @@ import (
 	"math"
 	"math/rand/v2"
 	"os"
+	"slices"
 	"strings"
 	"sync/atomic"
 	"testing"
@@ -302,6 +303,14 @@ func readCheck(ctx context.Context, s *sut, from ebu.Offset, limit int, viol vio
 	pos, _ := s.ref.Pos(from)
 	origin := s.ref.OriginOf(from)
 	evs, next, err := s.o.Store.Read(ctx, from, limit)
+	// the page belongs to the caller: once it has been looked at it is reordered and emptied in
+	// place (the events it points to are left alone); the log must not notice
+	defer func() {
+		slices.Reverse(evs)
+		for i := 0; i < len(evs); i += 2 {
+			evs[i] = nil
+		}
+	}()
 	s.trace = append(s.trace, fmt.Sprintf("Read(%q[%s pos %d], %d) -> %d events next=%q err=%v", from, origin, pos, limit, len(evs), next, err))
 	if origin == reflog.FromEvent {
 		fl.eventResume = true
